@@ -59,7 +59,7 @@ EXTREME = ["0", "-0", "+5", "007", "255", "256", "32767", "32768", "65535", "655
 
 class P(Prop):
     ID = "C20"
-    THEOREMS = ["C20_json_array_total", "C20_typed_readers_total", "C20_json_object_fuel", "C20_json_array_fuel", "C20_request_total", "C20_response_total",
+    THEOREMS = ["C20_json_array_total", "C20_typed_readers_total", "C20_json_object_fuel", "C20_json_array_fuel", "C20_request_total", "C20_response_total", "C20_range_multipart_total",
                 "C20_multipart_total", "C20_range_total", "C20_content_disposition_first_piece", "C20_url_pattern_total", "C20_url_match_total",
                 "C20_url_extract_total", "C20_url_build_total", "C20_panic_sites_vetted", "C20_no_recursive_parser"]
     COQ_TARGETS = ["theories/Props/C20.vo", "theories/Extract.vo"]
@@ -196,12 +196,11 @@ class P(Prop):
 
     # deep inputs are run through the implementation only: the extracted model appends to the end of lists (quadratic) and takes
     # minutes on them; what they are for - stack depth and termination of the real parser - is not a property of the model anyway
-    # rmp (Range::parse_multipart_body with the fixed String_separator boundary) has no model: implementation-side oracle only
     def model_input(self, line, impl_out):
-        return "noop" if meta(line).get("deep") or line.startswith("rmp ") else line
+        return "noop" if meta(line).get("deep") else line
 
     def canon(self, line, out):
-        return "SKIP" if meta(line).get("deep") or line.startswith("rmp ") else out
+        return "SKIP" if meta(line).get("deep") else out
 
     def oracle(self, line, out):
         if out is None or out.startswith(("CRASH", "PANIC", "TIMEOUT")) or out.endswith("PANIC"):
